@@ -396,12 +396,11 @@ func c02(c *Ctx) {
 			originID := c.fieldOf("internal/state", "targetedExists", "originStateID")
 			originSet := c.fieldOf("internal/state", "targetedExists", "originStateSet")
 			idOK, setOK := false, false
-			for _, b := range f.Blocks {
-				iff := engine.IfOf(b)
-				if iff == nil {
+			for _, fact := range engine.FactsDominating(f, cs.Instr.Block(), P.IsOwn) {
+				if !fact.Truth {
 					continue
 				}
-				switch t := iff.Cond.(type) {
+				switch t := fact.Cond.(type) {
 				case *ssa.BinOp:
 					if t.Op.String() == "==" {
 						for _, side := range []ssa.Value{t.X, t.Y} {
@@ -410,14 +409,15 @@ func c02(c *Ctx) {
 								if side == t.Y {
 									other = t.X
 								}
-								if _, isParam := other.(*ssa.Parameter); isParam && engine.EdgeDominates(b, 0, cs.Instr.Block()) {
+								// the other side is the state id handed to handle()
+								if p, isParam := fact.Resolve(other).(*ssa.Parameter); isParam && p.Parent() == f {
 									idOK = true
 								}
 							}
 						}
 					}
 				case *ssa.UnOp:
-					if fieldAddrIs(t.X, originSet) && engine.EdgeDominates(b, 0, cs.Instr.Block()) {
+					if fieldAddrIs(t.X, originSet) {
 						setOK = true
 					}
 				}
